@@ -210,6 +210,15 @@ def gen_c07(tier, rng):
         yield ('iv-extreme', 'sm4rt cbc %s %s %s' % (hx(k), hx(iv), hx(rb(rng, 20))), None)
         yield ('iv-extreme', 'sm4rt cfb %s %s %s' % (hx(k), hx(iv), hx(rb(rng, 20))), None)
         yield ('iv-extreme', 'sm4rt ofb %s %s %s' % (hx(k), hx(iv), hx(rb(rng, 20))), None)
+    # every carry LENGTH in bits: counters whose low j bits are all ones under a zero bit (j = 1..127), e.g. ..7fffffffffffffff,
+    # with random upper bits; two increments are exercised (33 bytes of data)
+    for j in range(1, 128, 1 if tier == 'thorough' else 3):
+        hi = rng.getrandbits(128) >> (j + 1) << (j + 1)
+        ivv = (hi | ((1 << j) - 1)).to_bytes(16, 'big')
+        yield ('ctr-carry-bit-length', 'sm4rt ctr %s %s %s' % (hx(rb(rng, 16)), hx(ivv), hx(rb(rng, 33))), None)
+    for lowhalf in (0x7fffffffffffffff, 0x7ffffffffffffffe, 0x00ffffffffffffff, 0xfffffffeffffffff, 0x7fffffff, 0xffffffff7fffffff):
+        ivv = rb(rng, 8) + lowhalf.to_bytes(8, 'big')
+        yield ('ctr-carry-word-patterns', 'sm4rt ctr %s %s %s' % (hx(rb(rng, 16)), hx(ivv), hx(rb(rng, 50))), None)
     # CBC decrypt: every length 0..=80 and every final plaintext byte value
     k, iv = rb(rng, 16), rb(rng, 16)
     for ln in range(0, 81 if tier == 'thorough' else 49):
@@ -281,6 +290,40 @@ def zuc_feedback_zero_key(rng, offset=0):
                     k[0] = cand >> 23
                     iv[0] = cand & 0xFF
                     return bytes(k), bytes(iv)
+
+
+def zuc_craft_3gpp(rng, offset, eia):
+    """(key, COUNT, BEARER, DIRECTION) for 128-EEA3 (eia=False) / 128-EIA3 (eia=True) such that s16 of ZUC initialisation round 1
+    is congruent to `offset` mod 2^31-1: the IV has the 3GPP structure, the free unknowns are k[0] and the top byte of COUNT"""
+    M = (1 << 31) - 1
+    inv257 = pow(257, -1, M)
+    while True:
+        k = bytearray(rb(rng, 16))
+        for _ in range(200000):
+            k[4] = rng.randrange(256)
+            count = rng.getrandbits(24)            # low three bytes; the top byte is solved for
+            bearer, d = rng.randrange(32), rng.randrange(2)
+            iv = [0] * 16
+            iv[1], iv[2], iv[3] = (count >> 16) & 0xff, (count >> 8) & 0xff, count & 0xff
+            if eia:
+                iv[4] = bearer << 3
+                iv[9:14] = iv[1:6]
+                iv[14] = (iv[6] ^ (d << 7)) & 0xff
+                iv[15] = iv[7]
+            else:
+                iv[4] = (bearer << 3) | (d << 2)
+                iv[9:16] = iv[1:8]
+            cell = lambda i: (k[i] << 23) | (ZUC_D[i] << 8) | iv[i]
+            s = [cell(i) for i in range(16)]
+            x0 = ((s[15] & 0x7FFF8000) << 1) | (s[14] & 0xFFFF)
+            u = x0 >> 1
+            rest = ((1 << 15) * s[15] + (1 << 17) * s[13] + (1 << 21) * s[10] + (1 << 20) * s[4] + u) % M
+            s0 = (offset - rest) * inv257 % M
+            for cand in (s0, s0 + M if s0 == 0 else None):
+                if cand is not None and (cand >> 8) & 0x7FFF == ZUC_D[0] and cand < (1 << 31):
+                    k[0] = cand >> 23
+                    top = cand & 0xFF                 # iv[0]: the top byte of COUNT (iv[8] = iv[0] (^ DIR<<7) is not a tap of round 1)
+                    return bytes(k), (top << 24) | count, bearer, d
 
 
 def gen_c08(tier, rng):
@@ -360,6 +403,19 @@ def gen_c18(tier, rng):
             msg2 += [rng.getrandbits(32)]
             yield ('eia-garbage', 'eia %s %x %x %x %x %s' % (hx(k), count, bearer, d, ln, words_hex(msg2)), None)
             yield ('eea-garbage', 'eea %s %x %x %x %x %s' % (hx(k), count, bearer, d, ln, words_hex(msg2)), None)
+    # keys / COUNT / BEARER / DIRECTION crafted so that the LFSR feedback of initialisation round 1 is 0, 1, .. 6 or -1 mod 2^31-1
+    # (the canonical-representative and carry-fold boundary of the mod 2^31-1 arithmetic), through the 3GPP IV formats
+    M_ = (1 << 31) - 1
+    for off in ([0, 1, 2, 3, 5, 6, M_ - 1] if tier != 'thorough' else [0, 0, 1, 1, 2, 2, 3, 3, 4, 5, 5, 6, 6, M_ - 1, M_ - 2]):
+        for eia_ in (False, True):
+            k_, cnt_, b_, d_ = zuc_craft_3gpp(rng, off, eia_)
+            msg = [rng.getrandbits(32) for _ in range(4)]
+            yield ('lfsr-feedback-boundary-' + ('eia' if eia_ else 'eea'), '%s %s %x %x %x %x %s' % ('eia' if eia_ else 'eea', hx(k_), cnt_, b_, d_, 100, words_hex(msg)), None)
+    # LENGTH next to 2^32 (ceil(LENGTH/32) = 2^27 words, 512 MiB synthesised in-process): real code only, against MACs frozen from
+    # an independent C reference (thorough tier: about a minute per op)
+    if tier == 'thorough':
+        for name, d in std_vectors('eia3.big'):
+            yield ('frozen-eia-length-near-2^32', 'eia_big %s %s %s %s %s %s' % (d['key'], d['count'], d['bearer'], d['dir'], d['length'], d['seed']), 'OK ' + d['mac'])
     # all bearers x directions
     k = rb(rng, 16)
     for bearer in range(32):
